@@ -1,0 +1,50 @@
+// Verification hooks (cargo feature `verif-hooks`); not part of the protocol.
+
+//! Constructors, accessors and handler wrappers for out-of-crate harnesses.
+
+use super::{Alpenglow, BlockInfo, ConsensusMessage};
+pub use super::pool::verif::{VerifFinalization, VerifRetained, verif_take_finalization_log};
+pub use super::votor::verif::{verif_capture_timeouts, verif_take_armed_windows};
+use crate::crypto::merkle::BlockHash;
+use crate::network::TransactionNetwork;
+use crate::shredder::Shred;
+use crate::{All2All, BlockId, Disseminator};
+
+impl BlockInfo {
+    /// Creates a block description from its hash and parent.
+    pub fn verif_new(hash: BlockHash, parent: BlockId) -> Self {
+        Self { hash, parent }
+    }
+
+    /// Hash of the described block.
+    pub fn verif_hash(&self) -> &BlockHash {
+        &self.hash
+    }
+
+    /// Parent of the described block.
+    pub fn verif_parent(&self) -> &BlockId {
+        &self.parent
+    }
+}
+
+impl<A, D, T> Alpenglow<A, D, T>
+where
+    A: All2All + Send + Sync + 'static,
+    D: Disseminator + Send + Sync + 'static,
+    T: TransactionNetwork + 'static,
+{
+    /// Runs the node's all-to-all message handler on `msg`.
+    pub async fn verif_handle_all2all_message(&self, msg: ConsensusMessage) {
+        self.handle_all2all_message(msg).await;
+    }
+
+    /// Runs the node's shred handler on `shred`.
+    pub async fn verif_handle_disseminator_shred(&self, shred: Shred) -> std::io::Result<()> {
+        self.handle_disseminator_shred(shred).await
+    }
+
+    /// Shared handle to the node's blockstore.
+    pub fn verif_blockstore(&self) -> super::SharedBlockstore {
+        std::sync::Arc::clone(&self.blockstore)
+    }
+}
